@@ -58,7 +58,7 @@ impl<'l, Data> EventLoop<'l, Data> {
 //@ rw R10 * <<self .handle .inner .sources_with_additional_lifecycle_events .borrow_mut()>> => <<(*extra)>>
 //@ closure <<|entry| entry.source.clone()>>
 -> (c: Option<Rc<dyn EventDispatcher<Data> + 'l>>) ensures c == entry.disp()
-//@ closure <<|entry| entry.source.is_none()>>
+//@ closure? <<|entry| entry.source.is_none()>>
 -> (b: bool) ensures b == entry.vacant()
 //@ sig
 /// S1 slice of EventLoop::dispatch_events: the body of the `for event in ..` loop (one event of the batch).
@@ -135,7 +135,7 @@ fn dispatch_events_per_event_body(&mut self, sources_at_lookup: &SourceList<'l, 
 //@ rw R10 * <<self .handle .inner .sources_with_additional_lifecycle_events .borrow_mut()>> => <<(*extra)>>
 //@ closure <<|entry| entry.source.clone()>>
 -> (c: Option<Rc<dyn EventDispatcher<Data> + 'l>>) ensures c == entry.disp()
-//@ closure <<|entry| entry.source.is_none()>>
+//@ closure? <<|entry| entry.source.is_none()>>
 -> (b: bool) ensures b == entry.vacant()
 //@ sig
 /// S1 slice of EventLoop::dispatch_events: the body of the `for event in ..` loop (one event of the batch).
@@ -213,7 +213,7 @@ fn dispatch_events_per_event_body(&mut self, sources_at_lookup: &SourceList<'l, 
 //@ rw R10 * <<self .handle .inner .sources_with_additional_lifecycle_events .borrow_mut()>> => <<(*extra)>>
 //@ closure <<|entry| entry.source.clone()>>
 -> (c: Option<Rc<dyn EventDispatcher<Data> + 'l>>) ensures c == entry.disp()
-//@ closure <<|entry| entry.source.is_none()>>
+//@ closure? <<|entry| entry.source.is_none()>>
 -> (b: bool) ensures b == entry.vacant()
 //@ sig
 /// S1 slice of EventLoop::dispatch_events: the WHOLE `for event in ..` statement (the per-event body is also verified on
@@ -248,7 +248,7 @@ fn dispatch_events_batch_loop(&mut self, batch: Vec<PollEvent>, sources_at_looku
 //@ rw R10 * <<self .handle .inner .sources_with_additional_lifecycle_events .borrow_mut()>> => <<(*extra)>>
 //@ closure <<|entry| entry.source.clone()>>
 -> (c: Option<Rc<dyn EventDispatcher<Data> + 'l>>) ensures c == entry.disp()
-//@ closure <<|entry| entry.source.is_none()>>
+//@ closure? <<|entry| entry.source.is_none()>>
 -> (b: bool) ensures b == entry.vacant()
 //@ sig
 /// S1 slice of EventLoop::dispatch_events: the WHOLE `for event in ..` statement (the per-event body is also verified on
